@@ -19,6 +19,7 @@ func init() {
 		probe := fs.Bool("probe", false, "probe every known URI after every write (C05)")
 		mv := fs.Bool("mv", false, "observe the multivariant playlist (C16)")
 		noemit := fs.Bool("noemit", false, "do not decode segments")
+		tokens := fs.Bool("tokens", false, "log every distinct playlist served as tokens (C15)")
 		fs.Parse(args)
 		b, err := os.ReadFile(*scripts)
 		if err != nil {
@@ -33,7 +34,7 @@ func init() {
 			return err
 		}
 		for i, sc := range scs {
-			if err := muxdrv.RunScript(w, i, sc, muxdrv.Options{Probe: *probe, MV: *mv, NoEmit: *noemit}); err != nil {
+			if err := muxdrv.RunScript(w, i, sc, muxdrv.Options{Probe: *probe, MV: *mv, NoEmit: *noemit, Tokens: *tokens}); err != nil {
 				return err
 			}
 		}
